@@ -18,9 +18,15 @@ checked `conj_index - 2` of OxfordComma); "never panics" is `∃ ls, rule … = 
 namespace Harper.C01
 open Harper Harper.Chunks Harper.Rules Harper.Leaves Harper.Rules2
 open Harper.C03 (RunsWF)
+open Harper.C12 (env0)
 
 theorem spelledNumbers_total (env : Env) (src : List Char) (toks : List Tok) (h : Tiles toks 0 src.length) :
     ∃ ls, ruleSpelledNumbers env src toks = .ok ls := (C03.spelledNumbers_spans_wf env src toks h).imp fun _ h => h.1
+/-- non-vacuity of `spelledNumbers_total`: the tokens of `i ate 9.` tile the text and the rule fires -/
+example : Tiles [⟨⟨0, 1⟩, .word⟩, ⟨⟨1, 2⟩, .space 1⟩, ⟨⟨2, 5⟩, .word⟩, ⟨⟨5, 6⟩, .space 1⟩, ⟨⟨6, 7⟩, .number 10 none⟩, ⟨⟨7, 8⟩, .punct .Period⟩] 0 (['i', ' ', 'a', 't', 'e', ' ', '9', '.']).length ∧
+    ruleSpelledNumbers ({ env0 with numVal := fun _ => .int 9 }) ['i', ' ', 'a', 't', 'e', ' ', '9', '.']
+      [⟨⟨0, 1⟩, .word⟩, ⟨⟨1, 2⟩, .space 1⟩, ⟨⟨2, 5⟩, .word⟩, ⟨⟨5, 6⟩, .space 1⟩, ⟨⟨6, 7⟩, .number 10 none⟩, ⟨⟨7, 8⟩, .punct .Period⟩] =
+    .ok [⟨⟨6, 7⟩, [.replaceWith ['n', 'i', 'n', 'e']], 21, 0⟩] := by decide
 
 /-- no hypothesis at all: the rule never touches the source through a span -/
 theorem spelledNumbers_total_any (env : Env) (src : List Char) (toks : List Tok) : ∃ ls, ruleSpelledNumbers env src toks = .ok ls := by
@@ -59,42 +65,97 @@ theorem avoidCurses_total_any (env : Env) (src : List Char) (toks : List Tok) : 
 theorem capitalizePersonalPronouns_total (env : Env) (src : List Char) (toks : List Tok) (h : Tiles toks 0 src.length) :
     ∃ ls, ruleCapitalizePersonalPronouns env src toks = .ok ls :=
   (C03.capitalizePersonalPronouns_spans_wf env src toks h).imp fun _ h => h.1
+/-- non-vacuity of `capitalizePersonalPronouns_total`: the tokens of `i ate 9.` tile the text and the rule fires -/
+example : Tiles [⟨⟨0, 1⟩, .word⟩, ⟨⟨1, 2⟩, .space 1⟩, ⟨⟨2, 5⟩, .word⟩, ⟨⟨5, 6⟩, .space 1⟩, ⟨⟨6, 7⟩, .number 10 none⟩, ⟨⟨7, 8⟩, .punct .Period⟩] 0 (['i', ' ', 'a', 't', 'e', ' ', '9', '.']).length ∧
+    ruleCapitalizePersonalPronouns (env0) ['i', ' ', 'a', 't', 'e', ' ', '9', '.']
+      [⟨⟨0, 1⟩, .word⟩, ⟨⟨1, 2⟩, .space 1⟩, ⟨⟨2, 5⟩, .word⟩, ⟨⟨5, 6⟩, .space 1⟩, ⟨⟨6, 7⟩, .number 10 none⟩, ⟨⟨7, 8⟩, .punct .Period⟩] =
+    .ok [⟨⟨0, 1⟩, [.replaceWith ['I']], 22, 0⟩] := by decide
 
 /-- a word token that reaches past the text: `get_span_content` panics -/
 example : ruleCapitalizePersonalPronouns C12.env0 ['i'] [⟨⟨0, 2⟩, .word⟩] = .error .sliceOOB := by decide
 
 theorem avoidCurses_total (env : Env) (src : List Char) (toks : List Tok) (h : Tiles toks 0 src.length) :
     ∃ ls, ruleAvoidCurses env src toks = .ok ls := (C03.avoidCurses_spans_wf env src toks h).imp fun _ h => h.1
+/-- non-vacuity of `avoidCurses_total`: the tokens of `damn it` tile the text and the rule fires -/
+example : Tiles [⟨⟨0, 4⟩, .word⟩, ⟨⟨4, 5⟩, .space 1⟩, ⟨⟨5, 7⟩, .word⟩] 0 (['d', 'a', 'm', 'n', ' ', 'i', 't']).length ∧
+    ruleAvoidCurses ({ env0 with wordFlags := fun w => if w == ['d', 'a', 'm', 'n'] then 262144 else 0 }) ['d', 'a', 'm', 'n', ' ', 'i', 't']
+      [⟨⟨0, 4⟩, .word⟩, ⟨⟨4, 5⟩, .space 1⟩, ⟨⟨5, 7⟩, .word⟩] =
+    .ok [⟨⟨0, 4⟩, [], 23, 0⟩] := by decide
 
 theorem wordPressDotcom_total (env : Env) (src : List Char) (toks : List Tok) (h : Tiles toks 0 src.length) :
     ∃ ls, ruleWordPressDotcom env src toks = .ok ls := (C03.wordPressDotcom_spans_wf env src toks h).imp fun _ h => h.1
+/-- non-vacuity of `wordPressDotcom_total`: the tokens of `wordpress.com` tile the text and the rule fires -/
+example : Tiles [⟨⟨0, 13⟩, .hostname⟩] 0 (['w', 'o', 'r', 'd', 'p', 'r', 'e', 's', 's', '.', 'c', 'o', 'm']).length ∧
+    ruleWordPressDotcom (env0) ['w', 'o', 'r', 'd', 'p', 'r', 'e', 's', 's', '.', 'c', 'o', 'm']
+      [⟨⟨0, 13⟩, .hostname⟩] =
+    .ok [⟨⟨0, 13⟩, [.replaceWith ['W', 'o', 'r', 'd', 'P', 'r', 'e', 's', 's', '.', 'c', 'o', 'm']], 24, 0⟩] := by decide
 
 theorem linkingVerbs_total (env : Env) (src : List Char) (toks : List Tok) (h : Tiles toks 0 src.length) :
     ∃ ls, ruleLinkingVerbs env src toks = .ok ls := (C03.linkingVerbs_spans_wf env src toks h).imp fun _ h => h.1
+/-- non-vacuity of `linkingVerbs_total`: the tokens of `quick is` tile the text and the rule fires -/
+example : Tiles [⟨⟨0, 5⟩, .word⟩, ⟨⟨5, 6⟩, .space 1⟩, ⟨⟨6, 8⟩, .word⟩] 0 (['q', 'u', 'i', 'c', 'k', ' ', 'i', 's']).length ∧
+    ruleLinkingVerbs ({ env0 with wordFlags := fun w => if w == ['q', 'u', 'i', 'c', 'k'] then 32768 else if w == ['i', 's'] then 2048 else 0 }) ['q', 'u', 'i', 'c', 'k', ' ', 'i', 's']
+      [⟨⟨0, 5⟩, .word⟩, ⟨⟨5, 6⟩, .space 1⟩, ⟨⟨6, 8⟩, .word⟩] =
+    .ok [⟨⟨6, 8⟩, [], 25, 0⟩] := by decide
 
 theorem commaFixes_total (env : Env) (src : List Char) (toks : List Tok) (h : Tiles toks 0 src.length) :
     ∃ ls, ruleCommaFixes env src toks = .ok ls := (C03.commaFixes_spans_wf env src toks h).imp fun _ h => h.1
+/-- non-vacuity of `commaFixes_total`: the tokens of `foo ,bar` tile the text and the rule fires -/
+example : Tiles [⟨⟨0, 3⟩, .word⟩, ⟨⟨3, 4⟩, .space 1⟩, ⟨⟨4, 5⟩, .punct .Comma⟩, ⟨⟨5, 8⟩, .word⟩] 0 (['f', 'o', 'o', ' ', ',', 'b', 'a', 'r']).length ∧
+    ruleCommaFixes (env0) ['f', 'o', 'o', ' ', ',', 'b', 'a', 'r']
+      [⟨⟨0, 3⟩, .word⟩, ⟨⟨3, 4⟩, .space 1⟩, ⟨⟨4, 5⟩, .punct .Comma⟩, ⟨⟨5, 8⟩, .word⟩] =
+    .ok [⟨⟨3, 5⟩, [.replaceWith [',', ' ']], 26, 5⟩] := by decide
 
 /-- an EMPTY comma token: `get_content(source).first().unwrap()` on `None` -/
 example : ruleCommaFixes C12.env0 ['a'] [⟨⟨0, 1⟩, .word⟩, ⟨⟨1, 1⟩, .punct .Comma⟩] = .error .unwrapNone := by decide
 
 theorem mergeWords_total (env : Env) (src : List Char) (toks : List Tok) (h : Tiles toks 0 src.length) :
     ∃ ls, ruleMergeWords env src toks = .ok ls := (C03.mergeWords_spans_wf env src toks h).imp fun _ h => h.1
+/-- non-vacuity of `mergeWords_total`: the tokens of `The refore` tile the text and the rule fires -/
+example : Tiles [⟨⟨0, 3⟩, .word⟩, ⟨⟨3, 4⟩, .space 1⟩, ⟨⟨4, 10⟩, .word⟩] 0 (['T', 'h', 'e', ' ', 'r', 'e', 'f', 'o', 'r', 'e']).length ∧
+    ruleMergeWords ({ env0 with wordFlags := fun w => if w == ['T', 'h', 'e', 'r', 'e', 'f', 'o', 'r', 'e'] then 524288 else 0 }) ['T', 'h', 'e', ' ', 'r', 'e', 'f', 'o', 'r', 'e']
+      [⟨⟨0, 3⟩, .word⟩, ⟨⟨3, 4⟩, .space 1⟩, ⟨⟨4, 10⟩, .word⟩] =
+    .ok [⟨⟨0, 10⟩, [.replaceWith ['T', 'h', 'e', 'r', 'e', 'f', 'o', 'r', 'e']], 27, 0⟩] := by decide
 
 theorem adjectiveOfA_total (env : Env) (src : List Char) (toks : List Tok) (h : Tiles toks 0 src.length) :
     ∃ ls, ruleAdjectiveOfA env src toks = .ok ls := (C03.adjectiveOfA_spans_wf env src toks h).imp fun _ h => h.1
+/-- non-vacuity of `adjectiveOfA_total`: the tokens of `big  of a` tile the text and the rule fires -/
+example : Tiles [⟨⟨0, 3⟩, .word⟩, ⟨⟨3, 5⟩, .space 2⟩, ⟨⟨5, 7⟩, .word⟩, ⟨⟨7, 8⟩, .space 1⟩, ⟨⟨8, 9⟩, .word⟩] 0 (['b', 'i', 'g', ' ', ' ', 'o', 'f', ' ', 'a']).length ∧
+    ruleAdjectiveOfA ({ env0 with wordFlags := fun w => if w == ['b', 'i', 'g'] then 32776 else 0 }) ['b', 'i', 'g', ' ', ' ', 'o', 'f', ' ', 'a']
+      [⟨⟨0, 3⟩, .word⟩, ⟨⟨3, 5⟩, .space 2⟩, ⟨⟨5, 7⟩, .word⟩, ⟨⟨7, 8⟩, .space 1⟩, ⟨⟨8, 9⟩, .word⟩] =
+    .ok [⟨⟨0, 9⟩, [.replaceWith ['b', 'i', 'g', ' ', ' ', 'a'], .replaceWith ['b', 'i', 'g', ' ', 'a']], 31, 0⟩] := by decide
 
 theorem inflectedVerbAfterTo_total (env : Env) (src : List Char) (toks : List Tok) (h : Tiles toks 0 src.length) :
     ∃ ls, ruleInflectedVerbAfterTo env src toks = .ok ls := (C03.inflectedVerbAfterTo_spans_wf env src toks h).imp fun _ h => h.1
+/-- non-vacuity of `inflectedVerbAfterTo_total`: the tokens of `to agreed` tile the text and the rule fires -/
+example : Tiles [⟨⟨0, 2⟩, .word⟩, ⟨⟨2, 3⟩, .space 1⟩, ⟨⟨3, 9⟩, .word⟩] 0 (['t', 'o', ' ', 'a', 'g', 'r', 'e', 'e', 'd']).length ∧
+    ruleInflectedVerbAfterTo ({ env0 with wordFlags := fun w => if w == ['t', 'o'] then 32769 else if w == ['a', 'g', 'r', 'e', 'e'] then 32896 else if w == ['a', 'g', 'r', 'e'] then 32896 else 0 }) ['t', 'o', ' ', 'a', 'g', 'r', 'e', 'e', 'd']
+      [⟨⟨0, 2⟩, .word⟩, ⟨⟨2, 3⟩, .space 1⟩, ⟨⟨3, 9⟩, .word⟩] =
+    .ok [⟨⟨0, 9⟩, [.replaceWith ['t', 'o', ' ', 'a', 'g', 'r', 'e']], 34, 0⟩, ⟨⟨0, 9⟩, [.replaceWith ['t', 'o', ' ', 'a', 'g', 'r', 'e', 'e']], 34, 0⟩] := by decide
 
 /-- **OxfordComma: `matched_toks[conj_index - 2]` under the exact guard** -/
 theorem oxfordComma_total_any_order (env : Env) (src : List Char) (toks : List Tok) (h : InText src toks)
     (hc : ConjOK env src toks) : ∃ ls, ruleOxfordComma env src toks = .ok ls :=
   (C03.oxfordComma_spans_wf_any_order env src toks h hc).imp fun _ h => h.1
+/-- non-vacuity of `oxfordComma_total_any_order`: tokens of the Markdown parser's shape (a zero-width `ParagraphBreak` at offset 0 AFTER the words of `so, cat and dog`) are `InText`, not in text order, and the rule fires -/
+example : InText ['s', 'o', ',', ' ', 'c', 'a', 't', ' ', 'a', 'n', 'd', ' ', 'd', 'o', 'g']
+      [⟨⟨0, 2⟩, .word⟩, ⟨⟨2, 3⟩, .punct .Comma⟩, ⟨⟨3, 4⟩, .space 1⟩, ⟨⟨4, 7⟩, .word⟩, ⟨⟨7, 8⟩, .space 1⟩, ⟨⟨8, 11⟩, .word⟩, ⟨⟨11, 12⟩, .space 1⟩, ⟨⟨12, 15⟩, .word⟩, ⟨⟨0, 0⟩, .paragraphBreak⟩] ∧
+    ConjOK ({ env0 with wordFlags := fun w => if w == ['s', 'o'] then 32834 else if w == ['c', 'a', 't'] then 32832 else if w == ['d', 'o', 'g'] then 32832 else if w == ['a', 'n', 'd'] then 32770 else 0 }) ['s', 'o', ',', ' ', 'c', 'a', 't', ' ', 'a', 'n', 'd', ' ', 'd', 'o', 'g']
+      [⟨⟨0, 2⟩, .word⟩, ⟨⟨2, 3⟩, .punct .Comma⟩, ⟨⟨3, 4⟩, .space 1⟩, ⟨⟨4, 7⟩, .word⟩, ⟨⟨7, 8⟩, .space 1⟩, ⟨⟨8, 11⟩, .word⟩, ⟨⟨11, 12⟩, .space 1⟩, ⟨⟨12, 15⟩, .word⟩, ⟨⟨0, 0⟩, .paragraphBreak⟩] ∧
+    ruleOxfordComma ({ env0 with wordFlags := fun w => if w == ['s', 'o'] then 32834 else if w == ['c', 'a', 't'] then 32832 else if w == ['d', 'o', 'g'] then 32832 else if w == ['a', 'n', 'd'] then 32770 else 0 }) ['s', 'o', ',', ' ', 'c', 'a', 't', ' ', 'a', 'n', 'd', ' ', 'd', 'o', 'g']
+      [⟨⟨0, 2⟩, .word⟩, ⟨⟨2, 3⟩, .punct .Comma⟩, ⟨⟨3, 4⟩, .space 1⟩, ⟨⟨4, 7⟩, .word⟩, ⟨⟨7, 8⟩, .space 1⟩, ⟨⟨8, 11⟩, .word⟩, ⟨⟨11, 12⟩, .space 1⟩, ⟨⟨12, 15⟩, .word⟩, ⟨⟨0, 0⟩, .paragraphBreak⟩] =
+    .ok [⟨⟨4, 7⟩, [.insertAfter [',']], 29, 0⟩] := ⟨by unfold InText TokIn; decide, by unfold ConjOK; decide, by decide⟩
 
 theorem oxfordComma_total (env : Env) (src : List Char) (toks : List Tok) (h : Tiles toks 0 src.length)
     (hc : ConjOK env src toks) : ∃ ls, ruleOxfordComma env src toks = .ok ls :=
   (C03.oxfordComma_spans_wf env src toks h hc).imp fun _ h => h.1
+/-- non-vacuity of `oxfordComma_total`: the tokens of `so, cat and dog` tile the text, `ConjOK` holds (`and` is a conjunction for this dictionary) and the rule fires -/
+example : Tiles [⟨⟨0, 2⟩, .word⟩, ⟨⟨2, 3⟩, .punct .Comma⟩, ⟨⟨3, 4⟩, .space 1⟩, ⟨⟨4, 7⟩, .word⟩, ⟨⟨7, 8⟩, .space 1⟩, ⟨⟨8, 11⟩, .word⟩, ⟨⟨11, 12⟩, .space 1⟩, ⟨⟨12, 15⟩, .word⟩] 0 (['s', 'o', ',', ' ', 'c', 'a', 't', ' ', 'a', 'n', 'd', ' ', 'd', 'o', 'g']).length ∧
+    ConjOK ({ env0 with wordFlags := fun w => if w == ['s', 'o'] then 32834 else if w == ['c', 'a', 't'] then 32832 else if w == ['d', 'o', 'g'] then 32832 else if w == ['a', 'n', 'd'] then 32770 else 0 }) ['s', 'o', ',', ' ', 'c', 'a', 't', ' ', 'a', 'n', 'd', ' ', 'd', 'o', 'g']
+      [⟨⟨0, 2⟩, .word⟩, ⟨⟨2, 3⟩, .punct .Comma⟩, ⟨⟨3, 4⟩, .space 1⟩, ⟨⟨4, 7⟩, .word⟩, ⟨⟨7, 8⟩, .space 1⟩, ⟨⟨8, 11⟩, .word⟩, ⟨⟨11, 12⟩, .space 1⟩, ⟨⟨12, 15⟩, .word⟩] ∧
+    ruleOxfordComma ({ env0 with wordFlags := fun w => if w == ['s', 'o'] then 32834 else if w == ['c', 'a', 't'] then 32832 else if w == ['d', 'o', 'g'] then 32832 else if w == ['a', 'n', 'd'] then 32770 else 0 }) ['s', 'o', ',', ' ', 'c', 'a', 't', ' ', 'a', 'n', 'd', ' ', 'd', 'o', 'g']
+      [⟨⟨0, 2⟩, .word⟩, ⟨⟨2, 3⟩, .punct .Comma⟩, ⟨⟨3, 4⟩, .space 1⟩, ⟨⟨4, 7⟩, .word⟩, ⟨⟨7, 8⟩, .space 1⟩, ⟨⟨8, 11⟩, .word⟩, ⟨⟨11, 12⟩, .space 1⟩, ⟨⟨12, 15⟩, .word⟩] =
+    .ok [⟨⟨4, 7⟩, [.insertAfter [',']], 29, 0⟩] := ⟨by decide, by unfold ConjOK; decide, by decide⟩
 
 /-- **and a panic without it** (kernel-checked): tokens that tile their text, a dictionary for which `and` is
 not a conjunction but the list's first item is -/
@@ -104,21 +165,54 @@ theorem oxfordComma_panics_without_conj :
 
 theorem noOxfordComma_total_any_order (env : Env) (src : List Char) (toks : List Tok) (h : InText src toks) :
     ∃ ls, ruleNoOxfordComma env src toks = .ok ls := (C03.noOxfordComma_spans_wf_any_order env src toks h).imp fun _ h => h.1
+/-- non-vacuity of `noOxfordComma_total_any_order`: tokens of the Markdown parser's shape (a zero-width `ParagraphBreak` at offset 0 AFTER the words of `cat, dog, and x`) are `InText`, not in text order, and the rule fires -/
+example : InText ['c', 'a', 't', ',', ' ', 'd', 'o', 'g', ',', ' ', 'a', 'n', 'd', ' ', 'x']
+      [⟨⟨0, 3⟩, .word⟩, ⟨⟨3, 4⟩, .punct .Comma⟩, ⟨⟨4, 5⟩, .space 1⟩, ⟨⟨5, 8⟩, .word⟩, ⟨⟨8, 9⟩, .punct .Comma⟩, ⟨⟨9, 10⟩, .space 1⟩, ⟨⟨10, 13⟩, .word⟩, ⟨⟨13, 14⟩, .space 1⟩, ⟨⟨14, 15⟩, .word⟩, ⟨⟨0, 0⟩, .paragraphBreak⟩] ∧
+    ruleNoOxfordComma ({ env0 with wordFlags := fun w => if w == ['c', 'a', 't'] then 32832 else if w == ['d', 'o', 'g'] then 32832 else 0 }) ['c', 'a', 't', ',', ' ', 'd', 'o', 'g', ',', ' ', 'a', 'n', 'd', ' ', 'x']
+      [⟨⟨0, 3⟩, .word⟩, ⟨⟨3, 4⟩, .punct .Comma⟩, ⟨⟨4, 5⟩, .space 1⟩, ⟨⟨5, 8⟩, .word⟩, ⟨⟨8, 9⟩, .punct .Comma⟩, ⟨⟨9, 10⟩, .space 1⟩, ⟨⟨10, 13⟩, .word⟩, ⟨⟨13, 14⟩, .space 1⟩, ⟨⟨14, 15⟩, .word⟩, ⟨⟨0, 0⟩, .paragraphBreak⟩] =
+    .ok [⟨⟨8, 9⟩, [.remove], 30, 0⟩] := ⟨by unfold InText TokIn; decide, by decide⟩
 
 theorem noOxfordComma_total (env : Env) (src : List Char) (toks : List Tok) (h : Tiles toks 0 src.length) :
     ∃ ls, ruleNoOxfordComma env src toks = .ok ls := (C03.noOxfordComma_spans_wf env src toks h).imp fun _ h => h.1
+/-- non-vacuity of `noOxfordComma_total`: the tokens of `cat, dog, and x` tile the text and the rule fires -/
+example : Tiles [⟨⟨0, 3⟩, .word⟩, ⟨⟨3, 4⟩, .punct .Comma⟩, ⟨⟨4, 5⟩, .space 1⟩, ⟨⟨5, 8⟩, .word⟩, ⟨⟨8, 9⟩, .punct .Comma⟩, ⟨⟨9, 10⟩, .space 1⟩, ⟨⟨10, 13⟩, .word⟩, ⟨⟨13, 14⟩, .space 1⟩, ⟨⟨14, 15⟩, .word⟩] 0 (['c', 'a', 't', ',', ' ', 'd', 'o', 'g', ',', ' ', 'a', 'n', 'd', ' ', 'x']).length ∧
+    ruleNoOxfordComma ({ env0 with wordFlags := fun w => if w == ['c', 'a', 't'] then 32832 else if w == ['d', 'o', 'g'] then 32832 else 0 }) ['c', 'a', 't', ',', ' ', 'd', 'o', 'g', ',', ' ', 'a', 'n', 'd', ' ', 'x']
+      [⟨⟨0, 3⟩, .word⟩, ⟨⟨3, 4⟩, .punct .Comma⟩, ⟨⟨4, 5⟩, .space 1⟩, ⟨⟨5, 8⟩, .word⟩, ⟨⟨8, 9⟩, .punct .Comma⟩, ⟨⟨9, 10⟩, .space 1⟩, ⟨⟨10, 13⟩, .word⟩, ⟨⟨13, 14⟩, .space 1⟩, ⟨⟨14, 15⟩, .word⟩] =
+    .ok [⟨⟨8, 9⟩, [.remove], 30, 0⟩] := by decide
 
 theorem widelyAccepted_total_any_order (env : Env) (src : List Char) (toks : List Tok) (h : InText src toks) :
     ∃ ls, ruleWidelyAccepted env src toks = .ok ls := (C03.widelyAccepted_spans_wf_any_order env src toks h).imp fun _ h => h.1
+/-- non-vacuity of `widelyAccepted_total_any_order`: tokens of the Markdown parser's shape (a zero-width `ParagraphBreak` at offset 0 AFTER the words of `Wide used`) are `InText`, not in text order, and the rule fires -/
+example : InText ['W', 'i', 'd', 'e', ' ', 'u', 's', 'e', 'd']
+      [⟨⟨0, 4⟩, .word⟩, ⟨⟨4, 5⟩, .space 1⟩, ⟨⟨5, 9⟩, .word⟩, ⟨⟨0, 0⟩, .paragraphBreak⟩] ∧
+    ruleWidelyAccepted (env0) ['W', 'i', 'd', 'e', ' ', 'u', 's', 'e', 'd']
+      [⟨⟨0, 4⟩, .word⟩, ⟨⟨4, 5⟩, .space 1⟩, ⟨⟨5, 9⟩, .word⟩, ⟨⟨0, 0⟩, .paragraphBreak⟩] =
+    .ok [⟨⟨0, 4⟩, [.replaceWith ['W', 'i', 'd', 'e', 'l', 'y']], 32, 0⟩] := ⟨by unfold InText TokIn; decide, by decide⟩
 
 theorem widelyAccepted_total_r2 (env : Env) (src : List Char) (toks : List Tok) (h : Tiles toks 0 src.length) :
     ∃ ls, ruleWidelyAccepted env src toks = .ok ls := (C03.widelyAccepted_spans_wf_r2 env src toks h).imp fun _ h => h.1
+/-- non-vacuity of `widelyAccepted_total_r2`: the tokens of `Wide used` tile the text and the rule fires -/
+example : Tiles [⟨⟨0, 4⟩, .word⟩, ⟨⟨4, 5⟩, .space 1⟩, ⟨⟨5, 9⟩, .word⟩] 0 (['W', 'i', 'd', 'e', ' ', 'u', 's', 'e', 'd']).length ∧
+    ruleWidelyAccepted (env0) ['W', 'i', 'd', 'e', ' ', 'u', 's', 'e', 'd']
+      [⟨⟨0, 4⟩, .word⟩, ⟨⟨4, 5⟩, .space 1⟩, ⟨⟨5, 9⟩, .word⟩] =
+    .ok [⟨⟨0, 4⟩, [.replaceWith ['W', 'i', 'd', 'e', 'l', 'y']], 32, 0⟩] := by decide
 
 theorem theHowWhy_total_any_order (env : Env) (src : List Char) (toks : List Tok) (h : InText src toks) :
     ∃ ls, ruleTheHowWhy env src toks = .ok ls := (C03.theHowWhy_spans_wf_any_order env src toks h).imp fun _ h => h.1
+/-- non-vacuity of `theHowWhy_total_any_order`: tokens of the Markdown parser's shape (a zero-width `ParagraphBreak` at offset 0 AFTER the words of `the  how it`) are `InText`, not in text order, and the rule fires -/
+example : InText ['t', 'h', 'e', ' ', ' ', 'h', 'o', 'w', ' ', 'i', 't']
+      [⟨⟨0, 3⟩, .word⟩, ⟨⟨3, 5⟩, .space 2⟩, ⟨⟨5, 8⟩, .word⟩, ⟨⟨8, 9⟩, .space 1⟩, ⟨⟨9, 11⟩, .word⟩, ⟨⟨0, 0⟩, .paragraphBreak⟩] ∧
+    ruleTheHowWhy (env0) ['t', 'h', 'e', ' ', ' ', 'h', 'o', 'w', ' ', 'i', 't']
+      [⟨⟨0, 3⟩, .word⟩, ⟨⟨3, 5⟩, .space 2⟩, ⟨⟨5, 8⟩, .word⟩, ⟨⟨8, 9⟩, .space 1⟩, ⟨⟨9, 11⟩, .word⟩, ⟨⟨0, 0⟩, .paragraphBreak⟩] =
+    .ok [⟨⟨0, 5⟩, [.remove], 33, 0⟩] := ⟨by unfold InText TokIn; decide, by decide⟩
 
 theorem theHowWhy_total_r2 (env : Env) (src : List Char) (toks : List Tok) (h : Tiles toks 0 src.length) :
     ∃ ls, ruleTheHowWhy env src toks = .ok ls := (C03.theHowWhy_spans_wf_r2 env src toks h).imp fun _ h => h.1
+/-- non-vacuity of `theHowWhy_total_r2`: the tokens of `the  how it` tile the text and the rule fires -/
+example : Tiles [⟨⟨0, 3⟩, .word⟩, ⟨⟨3, 5⟩, .space 2⟩, ⟨⟨5, 8⟩, .word⟩, ⟨⟨8, 9⟩, .space 1⟩, ⟨⟨9, 11⟩, .word⟩] 0 (['t', 'h', 'e', ' ', ' ', 'h', 'o', 'w', ' ', 'i', 't']).length ∧
+    ruleTheHowWhy (env0) ['t', 'h', 'e', ' ', ' ', 'h', 'o', 'w', ' ', 'i', 't']
+      [⟨⟨0, 3⟩, .word⟩, ⟨⟨3, 5⟩, .space 2⟩, ⟨⟨5, 8⟩, .word⟩, ⟨⟨8, 9⟩, .space 1⟩, ⟨⟨9, 11⟩, .word⟩] =
+    .ok [⟨⟨0, 5⟩, [.remove], 33, 0⟩] := by decide
 
 /-- the hypothesis `Tiles … 0 src.length` is what `document_tiles` gives of every plain-English document -/
 example (cls : Cls) (ext : Ext) (src : List Char) (hext : ExtOK ext src.length) :
@@ -136,5 +230,30 @@ example : InText ['#', ' ', 't', 'h', 'e', ' ', 'w', 'h', 'y', ' ', 'x']
 example : ruleTheHowWhy C12.env0 ['#', ' ', 't', 'h', 'e', ' ', 'w', 'h', 'y', ' ', 'x']
     [⟨⟨2, 5⟩, .word⟩, ⟨⟨5, 6⟩, .space 1⟩, ⟨⟨6, 9⟩, .word⟩, ⟨⟨9, 10⟩, .space 1⟩, ⟨⟨10, 11⟩, .word⟩, ⟨⟨2, 2⟩, .paragraphBreak⟩] =
     .ok [⟨⟨2, 6⟩, [.remove], 33, 0⟩] := by decide
+
+/-! ## any token order for the three remaining piece / token rules (w22 audit)
+
+`C03e` proves `RunsWF` for CapitalizePersonalPronouns, WordPressDotcom and LinkingVerbs on well-formed in-text tokens in
+ANY order (zero-width tokens included: the Markdown shape); totality is the first half. -/
+
+theorem capitalizePersonalPronouns_total_any_order (env : Env) (src : List Char) (toks : List Tok)
+    (h : InText src toks) : ∃ ls, ruleCapitalizePersonalPronouns env src toks = .ok ls :=
+  (C03.capitalizePersonalPronouns_spans_wf_any_order env src toks h).imp fun _ h => h.1
+
+theorem wordPressDotcom_total_any_order (env : Env) (src : List Char) (toks : List Tok)
+    (h : InText src toks) : ∃ ls, ruleWordPressDotcom env src toks = .ok ls :=
+  (C03.wordPressDotcom_spans_wf_any_order env src toks h).imp fun _ h => h.1
+
+theorem linkingVerbs_total_any_order (env : Env) (src : List Char) (toks : List Tok)
+    (h : InText src toks) : ∃ ls, ruleLinkingVerbs env src toks = .ok ls :=
+  (C03.linkingVerbs_spans_wf_any_order env src toks h).imp fun _ h => h.1
+
+/-- non-vacuity of the three: the Markdown shape of `i ate 9.` (a zero-width `ParagraphBreak` at offset 0 AFTER
+the words) is `InText`, is not in text order, and CapitalizePersonalPronouns fires on it -/
+example : InText ['i', ' ', 'a', 't', 'e', ' ', '9', '.']
+      [⟨⟨0, 1⟩, .word⟩, ⟨⟨1, 2⟩, .space 1⟩, ⟨⟨2, 5⟩, .word⟩, ⟨⟨5, 6⟩, .space 1⟩, ⟨⟨6, 7⟩, .number 10 none⟩, ⟨⟨7, 8⟩, .punct .Period⟩, ⟨⟨0, 0⟩, .paragraphBreak⟩] ∧
+    ruleCapitalizePersonalPronouns env0 ['i', ' ', 'a', 't', 'e', ' ', '9', '.']
+      [⟨⟨0, 1⟩, .word⟩, ⟨⟨1, 2⟩, .space 1⟩, ⟨⟨2, 5⟩, .word⟩, ⟨⟨5, 6⟩, .space 1⟩, ⟨⟨6, 7⟩, .number 10 none⟩, ⟨⟨7, 8⟩, .punct .Period⟩, ⟨⟨0, 0⟩, .paragraphBreak⟩] =
+    .ok [⟨⟨0, 1⟩, [.replaceWith ['I']], 22, 0⟩] := ⟨by unfold InText TokIn; decide, by decide⟩
 
 end Harper.C01
